@@ -5,6 +5,7 @@ import (
 	"net/http"
 	"net/url"
 	"path"
+	"strings"
 
 	api "github.com/polydawn/go-timeless-api"
 	"github.com/polydawn/go-timeless-api/rio"
@@ -69,6 +70,10 @@ func NewController(addr api.WarehouseLocation) (warehouse.BlobstoreController, e
 func (whCtrl Controller) OpenReader(wareID api.WareID) (io.ReadCloser, error) {
 	u := whCtrl.baseUrl
 	if whCtrl.ctntAddr {
+		// The hash becomes a path segment of the URL: "../" in it would address some other object of the server.
+		if strings.ContainsAny(wareID.Hash, "/\x00") || wareID.Hash == "." || wareID.Hash == ".." {
+			return nil, Errorf(rio.ErrUsage, "invalid ware ID %q: the hash must be a single path segment", wareID)
+		}
 		chunkA, chunkB, _ := util.ChunkifyHash(wareID)
 		u.Path = path.Join(u.Path, chunkA, chunkB, wareID.Hash)
 	}
